@@ -2152,7 +2152,15 @@ def _entry_from_writes(self, ent_name):
     """Entry fields of subset `ent_name` as written inside the subset loop (robust against whatever later statements do with the table)."""
     out = {}
     counts = {}
+    log = []
     for (var, path, op, val, conds) in self.I.write_log:
+        if len(path) == 1 and path[0][0] == "idx" and op == "=" and isinstance(val, Struct) and "generalized_dod" in val.fields:
+            # the whole entry written at once: one write per field
+            for fld_, v_ in val.fields.items():
+                log.append((var, tuple(path) + (("field", fld_),), op, v_, conds))
+        else:
+            log.append((var, path, op, val, conds))
+    for (var, path, op, val, conds) in log:
         if len(path) == 2 and path[0][0] == "idx" and path[1][0] == "field" and op == "=":
             fld = path[1][1]
             if fld not in ("generalized_dod", "loop_number", "mass_momentum_spanning"):
